@@ -1,7 +1,7 @@
 """C03 — gamut membership is exact: in-gamut iff reproducible by in-bound intensities."""
 import numpy as np
 from fractions import Fraction
-from common import F, rs, vs, ms, dyadic, close, call
+from common import F, rs, vs, ms, dyadic, close, call, as_given
 from systems import gen_A, gen_K, gen_baseline, apply_K
 from fitlib import K_text, ub_text
 
@@ -28,24 +28,50 @@ def gen_system(rng):
     if kk == "matrix_signed":
         K = np.eye(nf) + dyadic(rng, -0.5, 0.5, 2, size=(nf, nf)) * (1 - np.eye(nf))
     bk, base = gen_baseline(rng, nf)
-    ubk = str(rng.choice(["finite", "finite", "finite", "inf"]))
-    lbk = str(rng.choice(["zero", "zero", "pos"]))
-    ub = dyadic(rng, 0.5, 4, 2, size=ns) if ubk == "finite" else np.full(ns, np.inf)
-    lb = np.zeros(ns) if lbk == "zero" else dyadic(rng, 0.0625, 0.25, 4, size=ns)
-    return dict(nf=nf, ns=ns, A=A, K=K, K_kind=kk, baseline=base, baseline_kind=bk, lb=lb, ub=ub, ub_kind=ubk, lb_kind=lbk)
+    Ak = "dyadic"
+    if rng.integers(6) == 0:
+        # whole-number capture matrix (may be handed over with an integer dtype)
+        Aw = np.ceil(A)
+        if np.linalg.matrix_rank(Aw) == min(nf, ns):
+            A, Ak = Aw, "whole"
+    ubk = str(rng.choice(["finite", "finite", "whole", "inf"]))
+    lbk = str(rng.choice(["zero", "zero", "zero", "pos", "pos", "whole"]))
+    # whole-number bounds (lb = 0 or [0, 1, 2], ub = [1, 3, 2]) are the ones a caller writes as integers
+    lb = np.zeros(ns) if lbk == "zero" else (dyadic(rng, 0.0625, 0.25, 4, size=ns) if lbk == "pos" else dyadic(rng, 0, 2, 0, size=ns))
+    lb0 = lb if lbk == "whole" else np.zeros(ns)
+    ub = (lb0 + dyadic(rng, 0.5, 4, 2, size=ns)) if ubk == "finite" else ((lb0 + dyadic(rng, 1, 4, 0, size=ns)) if ubk == "whole" else np.full(ns, np.inf))
+    return dict(nf=nf, ns=ns, A=A, A_kind=Ak, K=K, K_kind=kk, baseline=base, baseline_kind=bk, lb=lb, ub=ub, ub_kind=ubk, lb_kind=lbk)
+
+
+def held(rng, S, R):
+    """what the caller's program holds and hands to the implementation: its own copies of the system's values, in one of
+    the legitimate representations (float or - for whole numbers - integer dtype, Fortran order, strided view, list). The
+    exact model works from the values in S. The same objects are used for every call of a case, as a program would."""
+    nf, ns = S["nf"], S["ns"]
+    filt = np.hstack([np.zeros((nf, 1)), S["A"], np.zeros((nf, 1))])
+    return dict(A=as_given(rng, S["A"].copy(), R, "A"), filters=as_given(rng, filt, R, "filters"),
+                lb=as_given(rng, S["lb"].copy(), R, "lb"), ub=as_given(rng, S["ub"].copy(), R, "ub"),
+                K=(None if S["K"] is None else as_given(rng, np.array(S["K"], dtype=float), R, "K")),
+                baseline=as_given(rng, np.array(S["baseline"], dtype=float), R, "baseline"))
 
 
 def run(R):
     import dreye
-    from dreye.api.convex import in_hull_from_A
+    from dreye.api.convex import in_hull_from_A, get_P_from_A, range_of_solutions
     from scipy.spatial import ConvexHull
     nsys = 40 if R.tier == "quick" else 600
     R.rule = ("systems 2-5 receptors x 1-8 sources, lb zero/positive, ub finite/infinite, K none/scalar/vector/matrix (also with "
               "negative entries), baseline 0/scalar/vector; targets constructed WITH exact certificates: interior and "
               "near-boundary-inside (product weights of the corners, verified by inHullCert), vertices, near-boundary-outside "
               "and far outside (supporting hyperplane from a rationalised qhull normal, verified by sepCert); plain, relative and "
-              "L1-normalised membership via in_hull_from_A and ReceptorEstimator.in_hull. Non-trivial: full-dimensional gamut with "
-              "at least one certified-in and one certified-out target.")
+              "L1-normalised membership via in_hull_from_A and ReceptorEstimator.in_hull / in_gamut, batched and as a single 1-D target. "
+              "Whole-number A / lb / ub variants; A, filters, lb, ub, K, baseline and targets are handed over as float or (whole numbers) "
+              "integer arrays, Fortran-ordered, strided views or lists (as_given); the model gets the values. Every call is checked for the "
+              "frame condition (arguments and registered estimator state unchanged by a query). Histories, bounded and unbounded: the same "
+              "estimator / the same held arrays answer a first query (in_hull, in_gamut, absolute in_hull, sample_in_hull, range_of_solutions, "
+              "get_P_from_A), are optionally re-adapted / re-bounded, and are asked again: answers must equal a fresh estimator's with the same "
+              "registered values and, without a registration in between, satisfy the certified expectations again. Non-trivial: "
+              "full-dimensional gamut with at least one certified-in and one certified-out target.")
     EPS = 2.0 ** -17
     work = []
     for si in range(nsys):
@@ -63,7 +89,7 @@ def run(R):
         P = t.mat(); Ap = t.mat(); bp = t.vec()
         nf, ns = S["nf"], S["ns"]
         Pf = np.array([[float(v) for v in row] for row in P])
-        finite = S["ub_kind"] == "finite"
+        finite = S["ub_kind"] != "inf"
         ext = float(np.max(Pf.max(0) - Pf.min(0))) + 1e-300
         fulldim = np.linalg.matrix_rank(Pf - Pf[0], tol=1e-9 * ext) == nf
         lbF = [F(v) for v in S["lb"]]; ubF = [F(v) if np.isfinite(v) else None for v in S["ub"]]
@@ -121,49 +147,122 @@ def run(R):
                 dist = float(margin) / float(np.sqrt(float(hh)))
                 if finite or not fulldim:
                     targets.append(dict(kind=kind, b=bf, be=be, expect=False, cert=("sep", h, c), dist=dist))
+        if not targets:
+            R.count("no-exactly-representable-target")
+            continue
         B = np.array([t_["b"] for t_ in targets])
         via = "estimator" if rng.integers(2) else "function"
-        filt = np.hstack([np.zeros((nf, 1)), S["A"], np.zeros((nf, 1))]); src = np.hstack([np.zeros((ns, 1)), np.eye(ns), np.zeros((ns, 1))])
+        src = np.hstack([np.zeros((ns, 1)), np.eye(ns), np.zeros((ns, 1))])
+        G = held(rng, S, R)
+        Bg = as_given(rng, B.copy(), R, "B", kinds=("same", "fortran", "strided", "list"))
 
-        def mk_est():
-            return dreye.ReceptorEstimator(filt, domain=1.0, K=(1.0 if S["K"] is None else S["K"]), baseline=S["baseline"], sources=src, lb=S["lb"], ub=S["ub"])
+        def mk_est(G=G, src=src):
+            return dreye.ReceptorEstimator(G["filters"], domain=1.0, K=(1.0 if G["K"] is None else G["K"]), baseline=G["baseline"], sources=src, lb=G["lb"], ub=G["ub"])
+
+        def by_function(Bq, G=G):
+            return call(in_hull_from_A, Bq, G["A"], G["lb"], G["ub"], K=G["K"], baseline=G["baseline"])
         drain()
+        # every query goes through common.call: arguments and the registered state of the estimator must be unchanged by it
+        single = None
         if via == "estimator":
-            st, out = call(lambda: mk_est().in_hull(B.copy()))
+            st, e0 = call(mk_est)
+            out = e0
+            if st == "ok":
+                meth = str(rng.choice(["in_hull", "in_gamut"]))
+                R.count("query:" + meth)
+                st, out = call(getattr(e0, meth), Bg)
+                if st == "ok" and rng.integers(3) == 0:
+                    single = call(e0.in_hull, as_given(rng, B[0].copy(), R, "b", kinds=("same", "strided", "list")))   # one 1-D target
         else:
-            st, out = call(in_hull_from_A, B.copy(), S["A"], S["lb"], S["ub"], K=S["K"], baseline=S["baseline"])
+            st, out = by_function(Bg)
+            if st == "ok" and rng.integers(3) == 0:
+                single = by_function(as_given(rng, B[0].copy(), R, "b", kinds=("same", "strided", "list")))
         paths = sorted({e["path"] for e in drain() if e["event"] == "in_hull"})
         # chromatic membership of the same in-box captures (and of positive multiples)
         stn, outn = (None, None)
         Bn = None
+        npaths = []
         if finite and np.all(Pf >= 0):
             Bn = np.array([t_["b"] for t_ in targets if t_["expect"] and np.sum(np.abs(t_["b"])) > 0])
             if len(Bn):
                 Bn = np.vstack([Bn, Bn * 2.0])
-                stn, outn = call(lambda: mk_est().in_hull(Bn.copy(), normalized=True))
-        # history: the same estimator is queried, re-adapted / re-bounded through every registration call, and queried
-        # again; a fresh estimator holding the same registered values must give the same answers
-        hist = None
-        if finite and len(B):
-            def history():
-                e1 = mk_est()
-                first = e1.in_hull(B.copy())
-                x0 = dyadic(rng, 0.25, 1.0, 2, size=ns)
-                step = int(rng.integers(4))
-                if np.any(S["A"] @ x0 + np.atleast_1d(S["baseline"]) <= 0):
-                    step = 3   # adapting to a background with zero capture is undefined: only re-bound
-                if step == 0:
-                    e1.register_system_adaptation(x0)
-                elif step == 1:
-                    e1.register_background_adaptation(src.T @ x0)
-                elif step == 2:
-                    e1.register_system_adaptation(x0, add=True) if np.ndim(e1.K) == 1 else e1.register_system_adaptation(x0)
+                stn, en = call(mk_est)
+                outn = en
+                if stn == "ok":
+                    stn, outn = call(en.in_hull, as_given(rng, Bn.copy(), R, "B", kinds=("same", "fortran", "strided", "list")), normalized=True)
+                npaths = sorted({e["path"] for e in drain() if e["event"] == "in_hull"})
+        # history: a program keeps using what it holds. The same estimator (or, with the functional interface, the same
+        # arrays) answers a first gamut query of any kind, is optionally re-adapted / re-bounded through a registration call,
+        # and is asked again. (1) a fresh estimator given the same registered values must give the same answers;
+        # (2) without a registration in between the certified targets keep their status: the second answer is judged like the first.
+        hist = dict(via=("estimator" if rng.integers(3) else "function"), step="none", first=None)
+        if hist["via"] == "estimator":
+            sth, e1 = call(mk_est)
+            if sth != "ok":
+                hist.update(error=(sth, e1))
+            else:
+                firsts = ["in_hull", "in_gamut", "in_hull(relative=False)", "sample_in_hull"] + (["range_of_solutions"] if ns > nf else [])
+                first = str(rng.choice(firsts))
+                if first == "in_hull":
+                    r1 = call(e1.in_hull, Bg)
+                elif first == "in_gamut":
+                    r1 = call(e1.in_gamut, Bg)
+                elif first == "in_hull(relative=False)":
+                    r1 = call(e1.in_hull, Bg, relative=False)
+                elif first == "sample_in_hull":
+                    r1 = call(e1.sample_in_hull, 3, seed=int(rng.integers(100)))
                 else:
-                    e1.register_bounds(ub=S["ub"] * 0.5)
-                again = e1.in_hull(B.copy())
-                e2 = dreye.ReceptorEstimator(filt, domain=1.0, K=np.array(e1.K, copy=True), baseline=S["baseline"], sources=src, lb=e1.lb.copy(), ub=e1.ub.copy())
-                return step, np.asarray(again), np.asarray(e2.in_hull(B.copy()))
-            hist = call(history)
+                    r1 = call(e1.range_of_solutions, Bg, error="ignore")
+                # (the value of the first query is the subject of other checks; here it is only part of the history)
+                hist.update(first=first, first_status=r1[0])
+                step = str(rng.choice(["none", "none", "system_adaptation", "background_adaptation", "system_adaptation(add)", "bounds"]))
+                x0 = dyadic(rng, 0.25, 1.0, 2, size=ns)
+                if step != "none" and np.any(S["A"] @ x0 + np.atleast_1d(S["baseline"]) <= 0):
+                    step = "bounds"   # adapting to a background with zero capture is undefined: only re-bound
+                ub_reg = S["ub"].copy()
+                r2 = ("ok", None)
+                if step == "system_adaptation":
+                    r2 = call(e1.register_system_adaptation, x0)
+                elif step == "background_adaptation":
+                    r2 = call(e1.register_background_adaptation, src.T @ x0)
+                elif step == "system_adaptation(add)":
+                    r2 = call(e1.register_system_adaptation, x0, add=True) if np.ndim(e1.K) == 1 else call(e1.register_system_adaptation, x0)
+                elif step == "bounds":
+                    ub_reg = S["ub"] * 0.5 + S["lb"] * 0.5     # stays above lb; infinite stays infinite
+                    r2 = call(e1.register_bounds, ub=ub_reg.copy())
+                hist.update(step=step)
+                if r2[0] != "ok":
+                    hist.update(error=r2)
+                else:
+                    sta, again = call(e1.in_hull, Bg)
+                    if sta != "ok":
+                        hist.update(error=(sta, again))
+                    else:
+                        filt0 = np.hstack([np.zeros((nf, 1)), S["A"], np.zeros((nf, 1))])
+                        stf, fresh = call(lambda: dreye.ReceptorEstimator(filt0, domain=1.0, K=np.array(e1.K, dtype=float), baseline=np.array(S["baseline"], dtype=float),
+                                                                           sources=src.copy(), lb=S["lb"].copy(), ub=ub_reg.copy()).in_hull(B.copy()))
+                        hist.update(again=np.atleast_1d(np.asarray(again)).astype(bool), fresh=(np.atleast_1d(np.asarray(fresh)).astype(bool) if stf == "ok" else None))
+                        if stf != "ok":
+                            hist.update(error=(stf, fresh))
+        else:
+            firsts = ["in_hull_from_A", "get_P_from_A"] + (["range_of_solutions"] if ns > nf else [])
+            first = str(rng.choice(firsts))
+            if first == "in_hull_from_A":
+                r1 = by_function(Bg)
+            elif first == "get_P_from_A":
+                r1 = call(get_P_from_A, G["A"], G["lb"], G["ub"], K=G["K"], baseline=G["baseline"], bounded=bool(finite))
+            else:
+                r1 = call(range_of_solutions, Bg, G["A"], G["lb"], G["ub"], K=G["K"], baseline=G["baseline"], error="ignore")
+            hist.update(first=first, first_status=r1[0])
+            sta, again = by_function(Bg)
+            if sta != "ok":
+                hist.update(error=(sta, again))
+            else:
+                stf, fresh = call(in_hull_from_A, B.copy(), S["A"].copy(), S["lb"].copy(), S["ub"].copy(), K=(None if S["K"] is None else np.array(S["K"], dtype=float)),
+                                  baseline=np.array(S["baseline"], dtype=float))
+                hist.update(again=np.atleast_1d(np.asarray(again)).astype(bool), fresh=(np.atleast_1d(np.asarray(fresh)).astype(bool) if stf == "ok" else None))
+                if stf != "ok":
+                    hist.update(error=(stf, fresh))
         # certificates
         for ti, t_ in enumerate(targets):
             ct = t_["cert"]
@@ -174,15 +273,17 @@ def run(R):
                 R.driver.ask(rid, "inhull", nf, ms(P), vs(ct[1]), vs(t_["be"]))
             elif ct[0] == "sep":
                 R.driver.ask(rid, "sep", ms(P), vs(ct[1]), rs(ct[2]), vs(t_["be"]))
-        jobs.append((k, S, targets, via, st, out, paths, fulldim, finite, ext, stn, outn, Bn, hist))
+        jobs.append((k, S, targets, via, st, out, paths, fulldim, finite, ext, stn, outn, Bn, hist, single, npaths,
+                     {n_: ("list" if isinstance(v, list) else ("None" if v is None else "%s%s" % (v.dtype, "" if v.flags["C_CONTIGUOUS"] else (" F-order" if v.flags["F_CONTIGUOUS"] else " strided"))))
+                      for n_, v in G.items()}))
     R.driver.run()
-    for k, S, targets, via, st, out, paths, fulldim, finite, ext, stn, outn, Bn, hist in jobs:
+    for k, S, targets, via, st, out, paths, fulldim, finite, ext, stn, outn, Bn, hist, single, npaths, given in jobs:
         c = dict(k=k, via=via, nf=S["nf"], ns=S["ns"], A=S["A"], K=S["K"], K_kind=S["K_kind"], baseline=S["baseline"], baseline_kind=S["baseline_kind"],
-                 lb=S["lb"], ub=S["ub"], full_dimensional=bool(fulldim), paths=paths,
+                 lb=S["lb"], ub=S["ub"], given_as=given, full_dimensional=bool(fulldim), paths=paths,
                  targets=[dict(kind=t_["kind"], b=t_["b"], expect=t_["expect"]) for t_ in targets])
         for key in ("via", "K_kind", "baseline_kind"):
             R.count("%s:%s" % (key, c[key]))
-        R.count("ub:" + S["ub_kind"]); R.count("lb:" + S["lb_kind"]); R.count("fulldim:%s" % bool(fulldim))
+        R.count("ub:" + S["ub_kind"]); R.count("lb:" + S["lb_kind"]); R.count("A:" + S["A_kind"]); R.count("fulldim:%s" % bool(fulldim))
         for p_ in paths:
             R.count("path:" + p_)
         cfg = "%s:%s" % ("bounded" if finite else "unbounded", "full" if fulldim else "flat")
@@ -193,49 +294,74 @@ def run(R):
             R.failB(dict(c, impl_error=out), "membership test raised %s: %s" % (st, out), sigbase + ":raises:" + st)
             continue
         out = np.atleast_1d(np.asarray(out)).astype(bool)
+        certified = []
         for ti, t_ in enumerate(targets):
             ct = t_["cert"]
-            certified = True
+            ok_ = True
             if ct[0] in ("box", "weights", "sep"):
-                certified = R.driver.get("%s_t%d" % (k, ti)).bool()
-                R.cert(certified)
+                ok_ = R.driver.get("%s_t%d" % (k, ti)).bool()
+                R.cert(ok_)
             R.count("target:%s" % t_["kind"])
-            if not certified:
+            if not ok_:
                 R.failA(dict(c, target=t_["kind"]), "constructed certificate for a %s target was not accepted by the checker" % t_["kind"])
-                continue
-            said = bool(out[ti])
-            if t_["kind"] == "vertex":
-                # a vertex is on the boundary: neither "strictly inside" nor "strictly outside" -- recorded, not asserted
-                R.count("vertex-reported-%s" % ("in" if said else "out"))
-                continue
-            if t_["expect"]:
-                has_in = True
-                if not said:
-                    R.failB(dict(c, target_kind=t_["kind"], target=t_["b"], intensities=[rs(v) for v in t_.get("x", [])]),
-                            "a %s target (capture of intensities strictly inside the bounds / certified convex combination of the corner images) was reported OUT of gamut" % t_["kind"],
+            certified.append(ok_)
+
+        def judge(answers, idx, when, extra):
+            """the property predicate on the answers given for the targets idx (certified in / certified out)"""
+            for said, ti in zip(answers, idx):
+                t_ = targets[ti]
+                said = bool(said)
+                if not certified[ti] or t_["kind"] == "vertex":
+                    continue
+                if t_["expect"] and not said:
+                    R.failB(dict(c, target_kind=t_["kind"], target=t_["b"], intensities=[rs(v) for v in t_.get("x", [])], **extra),
+                            "a %s target (capture of intensities strictly inside the bounds / certified convex combination of the corner images) was reported OUT of gamut%s" % (t_["kind"], when),
                             sigbase + ":false-negative:" + t_["kind"])
-            else:
-                has_out = True
-                if said and t_["dist"] > 1e-6 * ext:
-                    R.failB(dict(c, target_kind=t_["kind"], target=t_["b"], separator=[rs(v) for v in ct[1]], distance=t_["dist"]),
-                            "a target at distance %.3g (> 1e-6 x extent %.3g) outside the gamut (certified by a separating hyperplane) was reported IN gamut" % (t_["dist"], ext),
+                if (not t_["expect"]) and said and t_["dist"] > 1e-6 * ext:
+                    R.failB(dict(c, target_kind=t_["kind"], target=t_["b"], separator=[rs(v) for v in t_["cert"][1]], distance=t_["dist"], **extra),
+                            "a target at distance %.3g (> 1e-6 x extent %.3g) outside the gamut (certified by a separating hyperplane) was reported IN gamut%s" % (t_["dist"], ext, when),
                             sigbase + ":false-positive:" + t_["kind"])
-        if hist is not None:
-            R.count("history")
-            if hist[0] != "ok":
-                R.failB(dict(c, impl_error=hist[1]), "membership after re-registration raised: %s" % (hist[1],), "C03:history:raises:" + hist[0])
+        for ti, t_ in enumerate(targets):
+            if certified[ti] and t_["kind"] == "vertex":
+                # a vertex is on the boundary: neither "strictly inside" nor "strictly outside" -- recorded, not asserted
+                R.count("vertex-reported-%s" % ("in" if out[ti] else "out"))
+            elif certified[ti]:
+                has_in = has_in or t_["expect"]
+                has_out = has_out or not t_["expect"]
+        if len(out) != len(targets):
+            R.failB(dict(c, impl=out), "%d answers for %d targets" % (len(out), len(targets)), sigbase + ":answer-shape")
+        else:
+            judge(out, range(len(targets)), "", {})
+        if single is not None:
+            R.count("single-1d-target")
+            if single[0] != "ok":
+                R.failB(dict(c, impl_error=single[1]), "membership of a single (1-D) target raised %s: %s" % single, sigbase + ":single-target:raises:" + single[0])
+            elif np.size(single[1]) != 1:
+                R.failB(dict(c, impl=single[1]), "membership of a single (1-D) target is not one answer", sigbase + ":single-target:shape")
             else:
-                step, again, fresh = hist[1]
-                if not np.array_equal(again, fresh):
-                    R.failB(dict(c, registration_step=["register_system_adaptation", "register_background_adaptation", "register_system_adaptation(add)", "register_bounds"][step],
-                                 after_history=again, fresh_estimator=fresh),
-                            "the same targets get different gamut answers from an estimator that was queried before its last registration call and from a fresh estimator with the same registered values",
-                            "C03:history-dependence")
+                judge([bool(np.asarray(single[1]).ravel()[0])], [0], " when asked as a single 1-D target", dict(query="single 1-D target"))
+        R.count("history:%s" % hist["via"]); R.count("history:first=%s" % hist["first"]); R.count("history:then=%s" % hist["step"])
+        if not finite:
+            R.count("history:unbounded")
+        hinfo = dict(history_via=hist["via"], first_query=hist["first"], registration_step=hist["step"])
+        if "error" in hist:
+            R.failB(dict(c, impl_error=hist["error"][1], **hinfo), "membership query in a history (first query: %s, then: %s) raised: %s" % (hist["first"], hist["step"], hist["error"][1]),
+                    "C03:history:raises:" + hist["error"][0])
+        else:
+            again, fresh = hist["again"], hist["fresh"]
+            if not np.array_equal(again, fresh):
+                R.failB(dict(c, after_history=again, fresh=fresh, **hinfo),
+                        "the same targets get different gamut answers from an estimator (or arrays) used for an earlier query / registration call and from a fresh one holding the same registered values",
+                        "C03:history-dependence")
+            if hist["step"] == "none" and len(again) == len(targets):
+                judge(again, range(len(targets)), " by the second query on the same %s (first query: %s)" % ("estimator" if hist["via"] == "estimator" else "arrays", hist["first"]), hinfo)
         if stn is not None:
             R.count("normalized")
+            for p_ in npaths:
+                R.count("normalized-path:" + p_)
             if stn != "ok":
                 R.failB(dict(c, impl_error=outn), "chromatic (normalized) membership raised %s: %s" % (stn, outn), "C03:normalized:nf=%d:raises:%s" % (S["nf"], stn))
             elif not np.all(outn):
-                R.failB(dict(c, targets_normalized=Bn, impl=outn), "captures of in-bound intensities (or positive multiples of them) were reported outside the chromatic gamut",
-                        "C03:normalized:false-negative")
+                R.failB(dict(c, targets_normalized=Bn, impl=outn, normalized_paths=npaths), "captures of in-bound intensities (or positive multiples of them) were reported outside the chromatic gamut",
+                        "C03:normalized:false-negative:" + "+".join(npaths))
         R.case(c, (k,) if (fulldim and finite and has_in and has_out) else None, sample=(fulldim and finite and has_out))
